@@ -203,8 +203,10 @@ class MonitoredList(collections.abc.MutableSequence):
     def _callback_disabled(self):
         cb = self._callback
         self._callback = None
-        yield
-        self._callback = cb
+        try:
+            yield
+        finally:
+            self._callback = cb
 
     def __getitem__(self, index):
         return self._items[index]
@@ -535,8 +537,10 @@ class Trackers(collections.abc.MutableSequence):
     def _callback_disabled(self):
         cb = self._callback
         self._callback = None
-        yield
-        self._callback = cb
+        try:
+            yield
+        finally:
+            self._callback = cb
 
     def _tier_changed(self, tier):
         # Auto-remove empty tiers
